@@ -7,8 +7,10 @@ import (
 	"os"
 	"regexp"
 	"runtime"
+	"runtime/debug"
 	"sort"
 	"strconv"
+	"strings"
 	"testing"
 	"time"
 )
@@ -239,6 +241,11 @@ func WorkerMain(t *testing.T, worldName string, world World) {
 			}
 		}
 		for _, f := range res.Foreign {
+			if strings.HasSuffix(f.Signature(), "/panic") {
+				// see below: an unfinished internal transaction may have been leaked
+				debug.SetGCPercent(-1)
+				debug.SetMemoryLimit(3 << 30)
+			}
 			rep.Foreign[f.Signature()]++
 			if len(rep.ForeignEx) < 3 {
 				rep.ForeignEx = append(rep.ForeignEx, fmt.Sprintf("run %d: %s: %s", i, f.Signature(), f.Detail))
@@ -265,6 +272,11 @@ func WorkerMain(t *testing.T, worldName string, world World) {
 			continue
 		}
 		if res.Violation != nil {
+			// A violating run may leave a write transaction of the code under test unfinished in a place
+			// the harness cannot reach (e.g. inside ChangeIterator.Close); statedb's finalizer would panic
+			// when such a handle is collected. This worker ends after minimising, so stop collecting.
+			debug.SetGCPercent(-1)
+			debug.SetMemoryLimit(3 << 30)
 			sig := res.Violation.Signature()
 			full := append([]uint32(nil), c.Trace...)
 			tries := envInt("VERIF_REPRO_TRIES", 1)
